@@ -116,3 +116,19 @@ VP_FN(void, vp_append_cstr, (string *a, const char *z)) { *a += z; } VP_END(void
 VP_FN(void, vp_append_c32, (string *a, char32_t c)) { *a += c; } VP_END(void)
 VP_FN(void, vp_append_ch, (string *a, char c)) { *a += c; } VP_END(void)
 VP_FN(void, vp_fill, (string *out, size_t n, char c)) { new (out) string(string::fill(n, c)); } VP_END(void)
+
+#ifdef ST_HAVE_CXX20_CHAR8_TYPES
+// the const char8_t* overload family (thin forwards): checked against the same oracle as the const char* forms
+#define C8(z) reinterpret_cast<const char8_t *>(z)
+VP_FN(ST_ssize_t, vp_find_c8, (const string *s, size_t start, const char *z, int cs)) { return s->find(start, C8(z), (CS)cs); } VP_END(ST_ssize_t)
+VP_FN(ST_ssize_t, vp_find0_c8, (const string *s, const char *z, int cs)) { return s->find(C8(z), (CS)cs); } VP_END(ST_ssize_t)
+VP_FN(ST_ssize_t, vp_find_c8n, (const string *s, size_t start, const char *z, size_t n, int cs)) { return s->find(start, C8(z), n, (CS)cs); } VP_END(ST_ssize_t)
+VP_FN(ST_ssize_t, vp_find_last_c8, (const string *s, size_t max, const char *z, int cs)) { return s->find_last(max, C8(z), (CS)cs); } VP_END(ST_ssize_t)
+VP_FN(ST_ssize_t, vp_find_last0_c8, (const string *s, const char *z, int cs)) { return s->find_last(C8(z), (CS)cs); } VP_END(ST_ssize_t)
+VP_FN(bool, vp_contains_c8, (const string *s, const char *z, int cs)) { return s->contains(C8(z), (CS)cs); } VP_END(bool)
+VP_FN(bool, vp_starts_with_c8, (const string *s, const char *z, int cs)) { return s->starts_with(C8(z), (CS)cs); } VP_END(bool)
+VP_FN(bool, vp_ends_with_c8, (const string *s, const char *z, int cs)) { return s->ends_with(C8(z), (CS)cs); } VP_END(bool)
+VP_FN(int, vp_str_compare_c8, (const string *a, const char *z, int cs)) { return a->compare(C8(z), (CS)cs); } VP_END(int)
+VP_FN(int, vp_str_compare_n_c8, (const string *a, const char *z, size_t n, int cs)) { return a->compare_n(C8(z), n, (CS)cs); } VP_END(int)
+VP_FN(bool, vp_str_eq_c8, (const string *a, const char *z)) { return *a == C8(z); } VP_END(bool)
+#endif
